@@ -224,6 +224,8 @@ Definition ALLOW_LIST : string :=
 
 Definition expand_top (join_ok : bool) (value : list tok) (p : pat) : list tok :=
   let nodes := gen_nodes join_ok p None in
-  let assertion := pp_stmt (expand join_ok p (VRoot value)) in
+  (* a root `_` asserts nothing, but the asserted expression is still evaluated (once, borrowed) *)
+  let assertion := if is_wild p then tpl SCall "let _ = & ( $0 ) ;" [value]
+                   else pp_stmt (expand join_ok p (VRoot value)) in
   tpl SCall ("{ # [ allow ( " ++ ALLOW_LIST ++ " ) ] let __assert_struct_result = { use std :: convert :: AsRef as _ ; $0 const __PATTERN_TREE : & " ++ MS ++ " PatternNode = & $1 ; let mut __report = " ++ MS ++ " ErrorReport :: new ( :: std :: env ! ( ""CARGO_MANIFEST_DIR"" ) , :: std :: file ! ( ) , ) ; $2 if ! __report . is_empty ( ) { panic ! ( ""{}"" , __report ) ; } } ; __assert_struct_result }")
       [flat_map pp_node_const nodes; node_ident (pat_id p); assertion].
